@@ -222,6 +222,13 @@ def build_scorer(spec, X, k, n_table=None):
     from skchange.change_scores import to_change_score
     conv = to_change_score if k == 3 else to_local_anomaly_score
     obj = make()
+    _past_counter[0] += 1
+    if _past_counter[0] % 2 == 0 or spec["name"].startswith("GaussianCovCost"):
+        # the scorer object has a PAST: it was fitted to wider data before (a min_size or any other fitted state read before the refit is stale)
+        try:
+            obj.fit(_WIDE)
+        except Exception:      # noqa: BLE001
+            obj = make()
     if spec.get("as_score"):        # kernels want a scorer, not a cost
         obj = conv(obj)
 
@@ -251,6 +258,10 @@ def build_scorer(spec, X, k, n_table=None):
 
     direct.alt = alt
     return obj, direct, msize, None
+
+
+_past_counter = [0]
+_WIDE = np.random.default_rng(4321).normal(size=(24, 7))
 
 
 # ------------------------------------------------------------------------------------------------------------------
